@@ -1094,7 +1094,11 @@ def _collection_to_cst(value: list | tuple | set | dict) -> cst.BaseExpression:
     if isinstance(value, set):
         if not value:
             return cst.Call(func=cst.Name("set"))
-        return cst.Set(elements=[cst.Element(value=literal_to_cst(v)) for v in value])
+        # The iteration order of a set depends on the interpreter's hash seed; the
+        # rendered literal must not.
+        return cst.Set(
+            elements=[cst.Element(value=literal_to_cst(v)) for v in sorted(value, key=repr)]
+        )
     return cst.Dict(
         elements=[
             cst.DictElement(key=literal_to_cst(k), value=literal_to_cst(v))
